@@ -176,9 +176,9 @@ Section Values.
   (* ---------------------------------------------------------------- contract_einsum *)
   Definition ones (d : nat) : tval := ([d], fun _ => 1).
 
-  Definition contract_einsum (n : net) (data : Z -> list nat -> K) : option (tval * list nat) :=
-    match as_einsum n, shape n with
-    | Some E, Some shp =>
+  Definition contract_with (E : einsum_args) (n : net) (data : Z -> list nat -> K) : option (tval * list nat) :=
+    match shape n with
+    | Some shp =>
         match omap (fun tid => dget tid (tensors n)) (e_tids E) with
         | None => None
         | Some ts =>
@@ -201,8 +201,46 @@ Section Values.
                 end
             end
         end
-    | _, _ => None
+    | None => None
     end.
+
+  Definition contract_einsum (n : net) (data : Z -> list nat -> K) : option (tval * list nat) :=
+    match as_einsum n with
+    | Some E => contract_with E n data
+    | None => None
+    end.
+
+  (* ---------------------------------------------------------------- as_einsum, functional form *)
+  (** what as_einsum computes on a consistent network: the tensors sorted by id (virtual
+      tensor last), every leg labelled by the rank of its bond in the order of first
+      occurrence along the flattened leg list (TNEinsum.as_einsum_spec_correct) *)
+  Fixpoint zfirst_occ (l seen : list Z) : list Z :=
+    match l with
+    | [] => []
+    | x :: r => if zmem x seen then zfirst_occ r seen else x :: zfirst_occ r (seen ++ [x])
+    end.
+  Definition sorted_tids (n : net) : list Z :=
+    let keys := dkeys (tensors n) in
+    ksort (fun t => if Z.eqb t VT then (zmax0 keys + 1)%Z else t) keys.
+  Definition bond_order (n : net) : option (list Z) :=
+    option_map (fun ts => zfirst_occ (concat (map t_bids ts)) [])
+               (omap (fun tid => dget tid (tensors n)) (sorted_tids n)).
+  Definition lab_of (bl : list Z) (b : Z) : nat := match zindex b bl with Some i => i | None => O end.
+  Definition as_einsum_spec (n : net) : option einsum_args :=
+    let tids := sorted_tids n in
+    if Z.eqb (last tids 0%Z) VT then
+      match omap (fun tid => dget tid (tensors n)) tids, bond_order n with
+      | Some ts, Some bl =>
+          let tidx := map (fun t => map (lab_of bl) (t_bids t)) ts in
+          let out_logical := last tidx [] in
+          let out := first_occ out_logical [] in
+          match omap (fun i => nindex i out) out_logical with
+          | None => None
+          | Some amap => Some (mkE (removelast tids) (removelast tidx) out amap)
+          end
+      | _, _ => None
+      end
+    else None.
 
   (* ---------------------------------------------------------------- to_full_tensor *)
   Fixpoint find_pos (ax : nat) (amap : list nat) (j : nat) : option nat :=
